@@ -16,7 +16,8 @@
 (* and weights, id = text of the first header, one subpath constraint per  *)
 (* DISTINCT S-line with at least 2 nodes (its consecutive pairs), n and m  *)
 (* = node and edge counts.  A block with a malformed edge line (2 or 4     *)
-(* fields), a non-numeric weight or vertex count, or a constraint edge     *)
+(* fields), a non-numeric weight or vertex count (also an integer followed *)
+(* by another token), or a constraint edge                                 *)
 (* that is not in the graph makes read_graphs raise ValueError.            *)
 (* Blocks are described abstractly (BlockDescs); Lines / Meaning give the  *)
 (* concrete text and the expected result.                                  *)
@@ -30,7 +31,8 @@ Shapes == <<
   << <<"x", "y", 1>>, <<"x", "z", 1>>, <<"y", "w", 1>>, <<"z", "w", 1>> >> >>   \* diamond
 ConsOf(sh) == CASE sh = 1 -> <<"a", "b", "c">> [] sh = 2 -> <<"s", "a", "b">> [] sh = 3 -> <<"0", "1">> [] sh = 4 -> <<"x", "y", "w">>
 
-Corruptions == {"none", "edge_2_fields", "edge_4_fields", "weight_not_numeric", "count_not_numeric", "constraint_absent_edge"}
+Corruptions == {"none", "edge_2_fields", "edge_4_fields", "weight_not_numeric", "count_not_numeric", "count_trailing_token",
+                "constraint_absent_edge"}
 ConsKinds == {"none", "one", "duplicate", "single_node", "two"}
 
 Separators == {"space", "tab"}        \* the field separator of S-lines and edge lines: any whitespace separates fields
@@ -64,7 +66,9 @@ Lines(b, idtxt) ==
   \o (IF b.corr = "constraint_absent_edge" THEN <<"#S" \o Sep(b) \o edges[1][2] \o Sep(b) \o edges[1][1]>> ELSE <<>>)
   \o (IF b.extra THEN <<"# an extra comment">> ELSE <<>>)
   \o (IF b.blanks = 1 THEN <<"">> ELSE <<>>)
-  \o <<IF b.corr = "count_not_numeric" THEN "four" ELSE ToString(Cardinality(NodesOf(edges)))>>
+  \o <<IF b.corr = "count_not_numeric" THEN "four"
+       ELSE IF b.corr = "count_trailing_token" THEN ToString(Cardinality(NodesOf(edges))) \o Sep(b) \o "x"   \* an integer followed by junk is not a count
+       ELSE ToString(Cardinality(NodesOf(edges)))>>
   \o [i \in 1..Len(edges) |-> EdgeLine(edges[i], b.corr, i = Len(edges), Sep(b))]
 
 Pairs(c) == [i \in 1..(Len(c) - 1) |-> <<c[i], c[i + 1]>>]
